@@ -324,6 +324,8 @@ def curated():
                  ["window", "transition", "derived-on-derived", "derived-crossed", "early-start"]))
     out.append(D("window1-start0-over-transition-uncrossed", [c2, transition_rep("s", "c", A2), early("v")], cross(["c", "s", "v"], ["c"], [["AtMostKInARow", 2, "v", "miss"]]),
                  ["window", "transition", "derived-on-derived", "early-start", "atmost"]))
+    out.append(D("window1-start0-over-transition-implied", [c2, transition_rep("s", "c", A2), early("v")], cross(["c", "s", "v"], ["c"]),
+                 ["window", "transition", "derived-on-derived", "early-start", "implied"]))
     # --- continuous factors next to the discrete design (C08, C20 only: SC.design_space(continuous=True))
     wdu_ = fac("d", [["x", 2], ["y", 1]])
     for nz in (1, 2):
